@@ -121,6 +121,25 @@ spec('json-entry-unwrap', ['C17'], 'JSON-ENTRY', 'JSON-ENTRY:', [
 
   pub fn from_json''')])
 
+spec('concat-size-via-source', ['C07', 'C13'], 'DELEG', 'DELEG:concat_source::ConcatSource:size', [
+    (CC, 'self.children().iter().map(|child| child.size()).sum()', 'self.children().iter().map(|child| child.source().len()).sum()')])
+spec('box-size-via-source', ['C07', 'C13'], 'DELEG', 'DELEG:', [
+    (SRC, '''  fn size(&self) -> usize {
+    self.as_ref().size()
+  }''', '''  fn size(&self) -> usize {
+    self.as_ref().source().len()
+  }''')])
+spec('cached-size-via-source', ['C07', 'C13', 'C10'], 'DELEG', 'DELEG:cached_source::CachedSource<T>:size', [
+    (CS, '''  fn size(&self) -> usize {
+    self.inner.size()
+  }''', '''  fn size(&self) -> usize {
+    self.inner.source().len()
+  }''')])
+spec('box-map-default-options', ['C13'], 'DELEG', 'DELEG:', [
+    (SRC, 'self.as_ref().map(options)', 'self.as_ref().map(&MapOptions::default())')])
+spec('concat-writer-error-dropped', ['C07'], 'IOERR', 'IOERR:<concat_source::ConcatSource as source::Source>::to_writer', [
+    (CC, '      child.to_writer(writer)?;', '      let _ = child.to_writer(writer);')])
+
 
 def main():
     os.makedirs(os.path.join(V, 'canaries'), exist_ok=True)
